@@ -17,7 +17,7 @@ def main(tier):
         'repeated after extra-precision and standard data-file round trips',
         trust=('the forward contracts of C04 (block top / volume / centre) that rectgeo inverts', 'pyvc heap model of the real geometry and grid; numpy nanargmin / nanargmax: an index of an extremal non-NaN element; sets of objects iterate in creation order', 'z3'),
         assume=('the original geometry is rotated by a multiple of 90 degrees (0, 90, 180, 270) about a symbolic centre, with its permeability angle turned with it: asin(0), asin(1), sin and cos are exact there (pi is one real constant); other angles are bounded',
-                'whole-method obligations: 11 instances (2x1x2 .. 3x2x2, 3 atmosphere types, 4 conventions, 0 or 1 symbolic surface keeping at least two layers, 3 of them rotated) with symbolic spacings between layer_snap = 0.1 and 1e6, atmosphere volume >= 1e25; a one-layer column and a single block in the x direction reproduce two known findings',),
+                'whole-method obligations: 14 instances (2x1x2 .. 3x2x2, 3 atmosphere types, 4 conventions, 0 or 1 symbolic surface keeping at least two layers, 3 of them rotated, 3 with inactive boundary blocks attached through the real add_block / add_connection: a zero-volume or a huge-volume block on top of every column, one shared huge-volume block under the bottom layer) with symbolic spacings between layer_snap = 0.1 and 1e6, atmosphere volume >= 1e25; a one-layer column and a single block in the x direction reproduce two known findings',),
         extra=[(c18, c18.programs(tier))],
-        explanation='clause -> evidence: the real t2grid.rectgeo (spacing walks, origin and top-block search, block map, surface recovery, layer snapping) run by the executor on the grid fromgeo() builds from a real rectangular geometry with symbolic origin returns the same layer thicknesses, the same column rectangles and areas, the same surface elevations, the requested atmosphere arrangement and a block-name map under which fromgeo() of the reconstructed geometry reproduces block names, volumes and connection areas / distances: and the same position (every column on the corner points of the original column, top elevation) and orientation (angle 0, -90, -180, -270 modulo 360): PROVED for all origins, spacings and surfaces of the instances under assume. The forward leaves shared with C04 are proved (block top, volume, centre, telescoping column volume). The inversion of geometries rotated by other angles, larger grids, boundary blocks and data-file round trips is checked on 400 (quick) / 4000 (thorough) '
+        explanation='clause -> evidence: the real t2grid.rectgeo (spacing walks, origin and top-block search, block map, surface recovery, layer snapping) run by the executor on the grid fromgeo() builds from a real rectangular geometry with symbolic origin returns the same layer thicknesses, the same column rectangles and areas, the same surface elevations, the requested atmosphere arrangement and a block-name map under which fromgeo() of the reconstructed geometry reproduces block names, volumes and connection areas / distances: and the same position (every column on the corner points of the original column, top elevation) and orientation (angle 0, -90, -180, -270 modulo 360): PROVED for all origins, spacings and surfaces of the instances under assume. The forward leaves shared with C04 are proved (block top, volume, centre, telescoping column volume). With top / bottom boundary blocks attached the same clauses hold and the regenerated grid equals the grid without them. The inversion of geometries rotated by other angles, larger grids, side boundary blocks and data-file round trips is checked on 400 (quick) / 4000 (thorough) '
                     'generated rectangular geometries per run, in memory and after data-file round trips. 4 known findings (single block in x, one-layer columns, side boundary blocks, top layer not reached).')
